@@ -28,6 +28,10 @@ pub enum Kind {
     DecBurst,
     /// reset() followed by a burst of 15 incs: a reset does not mint position tokens
     ResetIncBurst,
+    /// the terminal reports another width (39 <-> 40 columns), then an ordinary tick
+    ResizeTick,
+    /// finish() (a forced draw, not counted) followed by reset(), whose redraw is an ordinary request
+    FinishReset,
     /// MultiProgress only: two bars are inserted at the top and dropped again, lower one first (the
     /// draws this forces are not ordinary requests and are not counted), then an ordinary tick of bar a
     ChurnTick,
@@ -183,6 +187,19 @@ impl C05 {
                 inc_calls.push((t, true));
                 inc_calls.push((u64::MAX, false));
             }
+            if ev.kind == Kind::ResizeTick {
+                let mut st = spy.st();
+                st.report_w = Some(if st.report_w == Some(39) { 40 } else { 39 });
+            }
+            if ev.kind == Kind::FinishReset {
+                let f0 = nframes(&spy);
+                if let Err(p) = catch(|| a.finish()) {
+                    return Err(p);
+                }
+                forced.push((f0, nframes(&spy)));
+                pa = 0;
+                drawn_a = true;
+            }
             for _ in 0..reps {
                 if ev.kind == Kind::ChurnTick {
                     let f0 = nframes(&spy);
@@ -202,7 +219,8 @@ impl C05 {
                 let t = clock::now_ns();
                 let reach0 = reach.times.lock().unwrap().len();
                 let r = catch(|| match ev.kind {
-                    Kind::Tick | Kind::Burst | Kind::ChurnTick => a.tick(),
+                    Kind::Tick | Kind::Burst | Kind::ChurnTick | Kind::ResizeTick => a.tick(),
+                    Kind::FinishReset => a.reset(),
                     Kind::Inc | Kind::IncBurst | Kind::ResetIncBurst => a.inc(1),
                     Kind::Dec | Kind::DecBurst => a.dec(1),
                     Kind::Msg => a.set_message(format!("m{}", msg + 1)),
@@ -406,8 +424,8 @@ fn configs(tier: Tier) -> Vec<(C05, usize)> {
             }
             for &r in &[20u8, 255] {
                 v.push((C05 { r, target: Target::Single, kinds: vec![Kind::Inc, Kind::IncBurst, Kind::Dec, Kind::DecBurst, Kind::ResetIncBurst], gaps: pos_gaps(r), name: "position-bucket" }, 3));
-                v.push((C05 { r, target: Target::Multi, kinds: vec![Kind::Tick, Kind::Burst, Kind::TickB, Kind::IncB, Kind::ChurnTick], gaps: vec![0, 1, interval_ns(r) - 1, interval_ns(r), 20 * interval_ns(r), 21 * interval_ns(r) + 1], name: "multi" }, 3));
-                v.push((C05 { r, target: Target::Single, kinds: vec![Kind::Tick, Kind::Inc, Kind::Burst, Kind::Msg, Kind::SetPos, Kind::SetPosSame], gaps: vec![0, 1_000_000, interval_ns(r) - 1, interval_ns(r) + 1_000_000, 21 * interval_ns(r) + 1], name: "mixed" }, 3));
+                v.push((C05 { r, target: Target::Multi, kinds: vec![Kind::Tick, Kind::Burst, Kind::TickB, Kind::IncB, Kind::ChurnTick, Kind::ResizeTick, Kind::FinishReset], gaps: vec![0, 1, interval_ns(r) - 1, interval_ns(r), 20 * interval_ns(r), 21 * interval_ns(r) + 1], name: "multi" }, 3));
+                v.push((C05 { r, target: Target::Single, kinds: vec![Kind::Tick, Kind::Inc, Kind::Burst, Kind::Msg, Kind::SetPos, Kind::SetPosSame, Kind::ResizeTick, Kind::FinishReset], gaps: vec![0, 1_000_000, interval_ns(r) - 1, interval_ns(r) + 1_000_000, 21 * interval_ns(r) + 1], name: "mixed" }, 3));
             }
         }
         Tier::Thorough => {
@@ -418,7 +436,7 @@ fn configs(tier: Tier) -> Vec<(C05, usize)> {
             for &r in few {
                 v.push((C05 { r, target: Target::Single, kinds: vec![Kind::Inc, Kind::IncBurst, Kind::Dec, Kind::DecBurst, Kind::ResetIncBurst], gaps: pos_gaps(r), name: "position-bucket" }, 4));
                 v.push((C05 { r, target: Target::Multi, kinds: vec![Kind::Tick, Kind::Burst, Kind::TickB, Kind::IncB, Kind::ChurnTick], gaps: vec![0, 1, interval_ns(r) - 1, interval_ns(r), 20 * interval_ns(r), 21 * interval_ns(r) + 1], name: "multi" }, 4));
-                v.push((C05 { r, target: Target::Single, kinds: vec![Kind::Tick, Kind::Inc, Kind::Burst, Kind::Msg, Kind::SetPos, Kind::SetPosSame], gaps: vec![0, 1_000_000, interval_ns(r) - 1, interval_ns(r) + 1_000_000, 21 * interval_ns(r) + 1], name: "mixed" }, 4));
+                v.push((C05 { r, target: Target::Single, kinds: vec![Kind::Tick, Kind::Inc, Kind::Burst, Kind::Msg, Kind::SetPos, Kind::SetPosSame, Kind::ResizeTick, Kind::FinishReset], gaps: vec![0, 1_000_000, interval_ns(r) - 1, interval_ns(r) + 1_000_000, 21 * interval_ns(r) + 1], name: "mixed" }, 4));
             }
         }
     }
